@@ -2,7 +2,7 @@
 import ast
 import itertools
 
-from ..core import Ob, Rule, AnalysisError, norm, KeyMaker
+from ..core import require_idiom, Ob, Rule, AnalysisError, norm, KeyMaker
 from ..cfg import path_of
 from .. import astutil as A
 from . import datarules as D
@@ -283,9 +283,11 @@ def r3_sources_and_atoms(ctx):
     isv = ctx.func('codes', 'ExternalCodes.isValid')
     txt = ast.unparse(isv)
     ok = 'key in self.exclude_list' in txt and "code in self.codes[key]['codes']" in txt
+    require_idiom(ok, 'c15.py:285')
     yield Ob('codes:ExternalCodes.isValid honours the exclusion list and tests membership', ok, ctx.floc(isv), '' if ok else 'isValid changed')
     ci = ctx.func('codes', 'ExternalCodes.__init__')
     ok = "exclude.split(',')" in ast.unparse(ci)
+    require_idiom(ok, 'c15.py:288')
     yield Ob('codes:ExternalCodes.__init__ splits the exclusion list on commas', ok, ctx.floc(ci), '' if ok else 'changed')
     # charset and version reach the recogniser
     dt = [c for c in A.calls_in(fn) if A.call_target(c)[1] == 'IsValidDataType']
@@ -356,10 +358,12 @@ def r4_presence_usage(ctx):
     loops = [s for s in cf.body if isinstance(s, ast.For)]
     ok = len(loops) == 2 and 'min(len(comp_data), self.get_child_count())' in norm(loops[0].iter, 200) and 'is_valid(comp_data[i], errh)' in ast.unparse(loops[0]) \
         and 'is_valid(None, errh)' in ast.unparse(loops[1])
+    require_idiom(ok, 'c15.py:357')
     yield Ob('map_if:composite_if.is_valid validates present components and then the missing ones', ok, ctx.floc(cf), '' if ok else 'delegation loops changed')
     sf = ctx.func('map_if', 'segment_if.is_valid')
     loops = [s for s in sf.body if isinstance(s, ast.For) and 'child_count' in norm(s.iter, 200)]
     ok = len(loops) == 2 and 'is_valid(None, errh)' in ast.unparse(loops[1]) and norm(loops[1].iter, 200) == 'range(min(len(seg_data), child_count), child_count)'
+    require_idiom(ok, 'c15.py:362')
     yield Ob('map_if:segment_if.is_valid validates present elements and then the missing ones', ok, ctx.floc(sf), '' if ok else 'element loops changed')
 
 
